@@ -7,8 +7,14 @@ usage: tools/runmut.py <Cxx> <mutant-name|path.diff>... [--tests] [--tier quick]
 import os, shutil, subprocess, sys, tempfile, time
 here = os.path.dirname(os.path.abspath(__file__))
 root = os.path.dirname(here)
-args = [a for a in sys.argv[1:] if not a.startswith("--")]
-run_tests = "--tests" in sys.argv
+argv = list(sys.argv[1:])
+keep = None
+if "--keep" in argv:          # --keep DIR: save up to two shrunk replays per change as DIR/<prop>-<change>-<k>.json
+    i = argv.index("--keep")
+    keep = os.path.abspath(argv[i + 1])
+    del argv[i:i + 2]
+args = [a for a in argv if not a.startswith("--")]
+run_tests = "--tests" in argv
 prop, names = args[0], args[1:]
 for n in names:
     p = n if os.path.exists(n) else os.path.join(here, "mutants", n + ".diff")
@@ -32,6 +38,14 @@ for n in names:
             tr = subprocess.run(f"cd {d}/r && PYTHONPATH={d}/r/src /venv/bin/python -m pytest -q -p no:cacheprovider --deselect tests/test_e2e.py 2>&1 | tail -1", shell=True, capture_output=True, text=True)
             tests = " | baseline tests: " + tr.stdout.strip()
         print(f"{prop} {os.path.basename(n)}: {status} ({len(viol)} buckets, {time.time()-t:.0f}s){tests}")
+        if keep and viol:
+            os.makedirs(keep, exist_ok=True)
+            base = os.path.basename(n).replace(".diff", "")
+            for k, l in enumerate(viol[:2]):
+                rp = l.split("replay=")[1].strip()
+                src = rp if os.path.isabs(rp) else os.path.join(out, rp)
+                if os.path.exists(src):
+                    shutil.copy(src, os.path.join(keep, f"{prop}-{base}-{k}.json"))
         shown = 0
         for l in r.stdout.splitlines():
             if (l.startswith("VIOLATION") or l.startswith("  C") or l.startswith("HARNESS")) and shown < 8:
